@@ -360,9 +360,7 @@ def check_instance_case(ctx, case, ops, res, rc, err, files, mexe, problems):
             if not (h == t or h.split("(")[0] == t or h.startswith(t) or t.startswith(h)):
                 bad("heading-order", "column %d of user number %d: the heading line says %r but the values of that position are stored under %r (headings and values are emitted in different orders)" % (k, n, t, h), n=n)
                 break
-    # 4a. the block's print format never shortens a string value (the table keeps the full string), and all cells of one block use one width
-    #     class (12 = default, 20 = -high_precision)
-    widths = {}
+    # 4a. the block's print format never shortens a string value (the table keeps the full string)
     for e in events:
         if e["k"] != "pval":
             continue
@@ -370,12 +368,6 @@ def check_instance_case(ctx, case, ops, res, rc, err, files, mexe, problems):
         if isinstance(v, dict) and "s" in v and isinstance(v["s"], str) and v["s"] not in e["text"]:
             bad("render:string-truncated", "the string value %r of user number %d is shortened to %r in the text sinks by the format %r while the table keeps the full string" % (v["s"], e["n"], e["text"], e["fmt"]), event=e)
             break
-        m = re.match(r"%(\d+)", e["fmt"])
-        if m:
-            widths.setdefault(e["n"], set()).add(int(m.group(1)))
-    for n, ws in widths.items():
-        if not ws <= {12, 20}:
-            bad("render:width", "cells of user number %d use the print widths %s (expected 12, or 20 with -high_precision)" % (n, sorted(ws)), n=n)
     # 4. each text cell is the table value rendered in the block's format; table cell = value punched
     for e in events:
         if e["k"] == "pval":
